@@ -151,3 +151,109 @@ pub fn build_x(kind: XKind, term: Term) -> XAny {
         XKind::XSlow => XAny::X(XMatcher { term: None, candidates: false }),
     }
 }
+
+/// Probe for a crack in the trusted base: regex-automata 0.4.7 sometimes
+/// misses (or mis-places) a match depending on the offset a search starts at
+/// (e.g. `(?:cbc)*?b` searched from the start of the line `cbccbc` inside a
+/// larger haystack skips the match at its second byte, but finds it when the
+/// search starts one byte earlier or later). Returns true when the matcher,
+/// asked directly, contradicts itself about this line: the line's content
+/// matches on its own, yet a search of the whole input starting at the
+/// line's first byte finds nothing before the end of the line (or the
+/// other way round).
+pub fn engine_inconsistent_on_line<M: Matcher>(m: &M, input: &[u8], start: usize, content_end: usize) -> bool {
+    let alone = m.is_match(&input[start..content_end]).unwrap_or(false);
+    let in_context = match m.find_at(input, start) {
+        Ok(Some(mt)) => mt.start() < content_end || (mt.start() == content_end && mt.is_empty()),
+        _ => false,
+    };
+    alone != in_context
+}
+
+pub const ENGINE_FACT: &str = "regex-engine-inconsistent-across-start-offsets";
+
+/// The law every leftmost-first search obeys, whatever the pattern: let
+/// `r(i)` be the match found when the search of the same haystack starts at
+/// offset `i` (look-behind context kept). If `r(i)` is none, so is `r(j)` for
+/// every `j > i`; if `r(i)` starts at `s >= j > i`, then `r(j) == r(i)`.
+/// Returns true when the given search function breaks the law on a haystack
+/// of `len` bytes (checked between adjacent offsets, which suffices).
+pub fn offsets_inconsistent(len: usize, find_at: &dyn Fn(usize) -> Option<(usize, usize)>) -> bool {
+    if len > 3000 {
+        return false;
+    }
+    let mut prev = find_at(0);
+    for j in 1..=len {
+        let cur = find_at(j);
+        match prev {
+            None => {
+                if cur.is_some() {
+                    return true;
+                }
+            }
+            Some((s, _)) if s >= j => {
+                if cur != prev {
+                    return true;
+                }
+            }
+            _ => {}
+        }
+        prev = cur;
+    }
+    false
+}
+
+/// Probe both sides of a disagreement for the trusted-base crack described at
+/// `engine_inconsistent_on_line`: `(matcher side, oracle side)`. The matcher is
+/// probed on the whole input and on every line's content alone (and alone versus
+/// in context), the oracle regex on every line's content and on the whole input.
+pub fn engine_probe<M: Matcher>(m: &M, re: Option<&regex::bytes::Regex>, input: &[u8], term: u8, crlf: bool) -> (bool, bool) {
+    let mfind = |hay: &[u8]| {
+        let f = |i: usize| m.find_at(hay, i).ok().flatten().map(|x| (x.start(), x.end()));
+        offsets_inconsistent(hay.len(), &f)
+    };
+    let ofind = |hay: &[u8]| match re {
+        Some(re) => {
+            let f = |i: usize| re.find_at(hay, i).map(|x| (x.start(), x.end()));
+            offsets_inconsistent(hay.len(), &f)
+        }
+        None => false,
+    };
+    let mut m_bad = mfind(input);
+    let mut o_bad = ofind(input);
+    let mut start = 0;
+    let mut n = 0;
+    while start < input.len() && n < 64 && !(m_bad && o_bad) {
+        let end = input[start..].iter().position(|b| *b == term).map_or(input.len(), |p| start + p);
+        let mut ce = end;
+        if crlf && ce > start && input[ce - 1] == b'\r' {
+            ce -= 1;
+        }
+        let content = &input[start..ce];
+        m_bad = m_bad || mfind(content) || engine_inconsistent_on_line(m, input, start, ce);
+        o_bad = o_bad || ofind(content);
+        start = end + 1;
+        n += 1;
+    }
+    (m_bad, o_bad)
+}
+
+/// Post-process a verdict: a failure on an input where the regex engine
+/// contradicts itself is attributed to that (known finding when the matcher
+/// side is affected, undecidable when only the oracle side is).
+pub fn attribute_engine<M: Matcher>(v: crate::runner::Verdict, m: &M, re: Option<&regex::bytes::Regex>, input: &[u8], term: u8, crlf: bool) -> crate::runner::Verdict {
+    use crate::runner::Verdict;
+    match v {
+        Verdict::Fail(f) if !f.facts.iter().any(|x| x == ENGINE_FACT) => {
+            let (m_bad, o_bad) = engine_probe(m, re, input, term, crlf);
+            if m_bad {
+                Verdict::Fail(f.fact(ENGINE_FACT))
+            } else if o_bad {
+                Verdict::Reject("the oracle's regex engine contradicts itself across start offsets on this input (undecidable)")
+            } else {
+                Verdict::Fail(f)
+            }
+        }
+        v => v,
+    }
+}
